@@ -8,6 +8,7 @@ def mutated(relpath, old, new, count=1, repo="/repo"):
     d = tempfile.mkdtemp(prefix="pyvc_canary_")
     try:
         shutil.copytree(os.path.join(repo, "teaal"), os.path.join(d, "teaal"))
+        os.symlink(os.path.join(repo, "tests"), os.path.join(d, "tests"))
         p = os.path.join(d, relpath)
         s = open(p).read()
         if s.count(old) < 1:
